@@ -1,1 +1,3 @@
+pub mod a1;
 pub mod a2;
+pub mod a3;
